@@ -724,12 +724,40 @@ func (w *World) tryHint(env *Env, s CStmt) (hyps []string, ok bool) {
 		}
 		return []string{w.lemmaInstance(env, lm, n.Args)}, true
 	case *SAssert:
-		cfail("assert is not allowed in a by-hint")
+		if env.hint == nil || env.x == nil || len(env.bound) > 0 {
+			cfail("assert is not allowed in this by-hint")
+		}
+		var side []string
+		e2 := *env
+		e2.side = &side
+		g := e2.trB(n.E)
+		s2 := env.hint.st.clone()
+		for _, f := range side {
+			s2.assume(f)
+		}
+		for _, f := range env.hint.guards {
+			s2.assume(f)
+		}
+		*env.hint.n++
+		env.x.emit(s2, "ASSERT", fmt.Sprintf("%s.a%d", env.hint.site, *env.hint.n), g, n.Src)
+		if env.side != nil {
+			*env.side = append(*env.side, side...)
+		}
+		return []string{g}, true
 	case *SIf:
 		c := env.trB(n.Cond)
 		var out []string
-		th := w.ghostHyps(env, n.Then, nil, nil)
-		el := w.ghostHyps(env, n.Else, nil, nil)
+		te, ee := env, env
+		if env.hint != nil {
+			t2, f2 := *env, *env
+			th, eh := *env.hint, *env.hint
+			th.guards = append(append([]string(nil), env.hint.guards...), c)
+			eh.guards = append(append([]string(nil), env.hint.guards...), snot(c))
+			t2.hint, f2.hint = &th, &eh
+			te, ee = &t2, &f2
+		}
+		th := w.ghostHyps(te, n.Then, nil, nil)
+		el := w.ghostHyps(ee, n.Else, nil, nil)
 		if len(th) > 0 {
 			out = append(out, simplies(c, sand(th...)))
 		}
